@@ -133,13 +133,18 @@ class Zoo(object):
                 ll.fix_parameters({n: 1.1 for n in names if n.startswith('psi')})
             if posterior:
                 n = ll.n_parameters()
-                pr = pints.ComposedLogPrior(*[pints.GaussianLogPrior(1, 2) for _ in range(n)]) if n > 1 \
-                    else pints.GaussianLogPrior(1, 2)
+                # (positive support: the seeded initial points are drawn from the prior)
+                pr = pints.ComposedLogPrior(*[pints.LogNormalLogPrior(0.0, 0.4) for _ in range(n)]) if n > 1 \
+                    else pints.LogNormalLogPrior(0.0, 0.4)
                 return chi.LogPosterior(ll, pr)
             return ll
         ev = {'call': lambda m, x: m(x), 's1': lambda m, x: m.evaluateS1(x)}
         if not posterior:
             ev['pw'] = lambda m, x: m.compute_pointwise_ll(x)
+        else:
+            # seeded sampling of initial points (seed 0 is a seed)
+            s_init = int(rng.choice([0, 0, 1, 7]))
+            ev['init'] = lambda m, x: m.sample_initial_parameters(n_samples=2, seed=s_init)
         k = build().n_parameters()
         return ('LogPosterior' if posterior else 'LogLikelihood'), build, ev, \
             [rng.uniform(0.5, 1.5, k) for _ in range(3)], []
@@ -159,11 +164,14 @@ class Zoo(object):
             h = chi.HierarchicalLogLikelihood(lls, pm, covariates=None if cov is None else cov.copy())
             if posterior:
                 nt = h.n_parameters(exclude_bottom_level=True)
-                pr = pints.ComposedLogPrior(*[pints.GaussianLogPrior(1, 2) for _ in range(nt)]) if nt > 1 \
-                    else pints.GaussianLogPrior(1, 2)
+                pr = pints.ComposedLogPrior(*[pints.LogNormalLogPrior(0.0, 0.4) for _ in range(nt)]) if nt > 1 \
+                    else pints.LogNormalLogPrior(0.0, 0.4)
                 return chi.HierarchicalLogPosterior(h, pr)
             return h
         ev = {'call': lambda m, x: m(x), 's1': lambda m, x: m.evaluateS1(x)}
+        if posterior:
+            s_init = int(rng.choice([0, 0, 1, 7]))
+            ev['init'] = lambda m, x: m.sample_initial_parameters(n_samples=2, seed=s_init)
         k = build().n_parameters()
         return ('HierarchicalLogPosterior' if posterior else 'HierarchicalLogLikelihood'), build, ev, \
             [rng.uniform(0.5, 1.5, k) for _ in range(3)], ([] if cov is None else [cov])
@@ -254,8 +262,13 @@ def interleave_case(ctx, kind, build, ev, xs, ext_inputs, rng):
     for lab in labels:
         for j, x in enumerate(xs):
             fresh = build()
-            with np.errstate(all='ignore'):
-                ref[(lab, j)] = snap(ev[lab](fresh, x.copy()))
+            try:
+                with np.errstate(all='ignore'):
+                    ref[(lab, j)] = snap(ev[lab](fresh, x.copy()))
+            except ValueError as e:
+                # (e.g. initial points drawn from the prior outside a covariate-shifted scale's support: the
+                #  same refusal is expected inside the sequence)
+                ref[(lab, j)] = 'raises ' + type(e).__name__
     plan = [(labels[int(rng.integers(len(labels)))], int(rng.integers(len(xs)))) for _ in range(int(rng.integers(4, 12)))]
     inp = {'object': kind, 'plan': plan, 'inputs': xs}
     ctx.case('%s/%d-kinds' % (kind, len(set(p[0] for p in plan))),
@@ -264,12 +277,18 @@ def interleave_case(ctx, kind, build, ev, xs, ext_inputs, rng):
     ext_before = [np.array(a, copy=True) for a in ext_inputs]
     for lab, j in plan:
         x = xs[j].copy()
+        np.random.random(int(rng.integers(1, 4)))      # unrelated use of numpy's global generator in between
         try:
             with np.errstate(all='ignore'):
                 out = ev[lab](obj, x)
         except Exception as e:  # noqa
-            ctx.spec('C19.repeat_interleave/' + kind.split('/')[0], False, dict(inp, at=[lab, j]),
+            ctx.spec('C19.repeat_interleave/' + kind.split('/')[0],
+                     ref[(lab, j)] == 'raises ' + type(e).__name__, dict(inp, at=[lab, j]),
                      {'raised_in_sequence_but_not_alone': repr(e)[:200]})
+            continue
+        if isinstance(ref[(lab, j)], str):
+            ctx.spec('C19.repeat_interleave/' + kind.split('/')[0], False, dict(inp, at=[lab, j]),
+                     {'single_evaluation_of_untouched_twin': ref[(lab, j)], 'in_sequence': 'returned a value'})
             continue
         ok = same(snap(out), ref[(lab, j)])
         ctx.spec('C19.repeat_interleave/' + kind.split('/')[0], ok, dict(inp, at=[lab, j]),
@@ -490,6 +509,53 @@ def controller_from_user_models(ctx, chi, rng):
              pm.get_parameter_names()[0] == 'psi0', inp, {'before': v0, 'after': v1, 'new posteriors': v2})
 
 
+def controller_request_order(ctx, chi, rng):
+    """posteriors handed out by one controller do not depend on which other posteriors were requested before:
+    dosed and undosed individuals of one data set, requested in two different orders from two controllers"""
+    import pandas as pd
+    import refsim
+    refsim.install()
+    from chi.library import ModelLibrary
+
+    def controller():
+        m = ModelLibrary().one_compartment_pk_model()
+        m.set_administration('central', direct=True)
+        c = chi.ProblemModellingController(m, [chi.GaussianErrorModel()])
+        c.set_data(df, output_observable_dict={'central.drug_concentration': 'conc'}, dose_key='Dose',
+                   dose_duration_key='Duration')
+        c.set_log_prior(pints.ComposedLogPrior(*[pints.UniformLogPrior(0, 100) for _ in range(c.get_n_parameters())]))
+        return c
+    ids = ['a', 'b', 'c']
+    dosed = {'a': True, 'b': False, 'c': True}
+    if rng.random() < 0.5:
+        dosed = {'a': False, 'b': True, 'c': False}
+    rows = []
+    for i in ids:
+        for t in np.sort(rng.choice(np.arange(1, 12) * 0.5, 3, replace=False)):
+            rows.append({'ID': i, 'Time': float(t), 'Observable': 'conc', 'Value': float(rng.uniform(0.2, 2)),
+                         'Dose': np.nan, 'Duration': np.nan})
+        if dosed[i]:
+            for t in rng.choice([0.0, 1.0, 2.0], size=int(rng.integers(1, 3)), replace=False):
+                rows.append({'ID': i, 'Time': float(t), 'Observable': np.nan, 'Value': np.nan,
+                             'Dose': float(rng.uniform(1, 5)), 'Duration': float(rng.choice([0.01, 0.5]))})
+    df = pd.DataFrame(rows)
+    order1 = [ids[j] for j in rng.permutation(3)]
+    order2 = list(reversed(order1))
+    c1, c2 = controller(), controller()
+    x = rng.uniform(0.5, 1.5, c1.get_n_parameters())
+    inp = {'object': 'ProblemModellingController(one-compartment PK model)', 'dosed': dosed, 'first_order': order1,
+           'second_order': order2, 'x': x}
+    ctx.case('controller-request-order', nontrivial='order/%s/%s' % (order1, sorted(dosed.items())), sample=inp)
+    with np.errstate(all='ignore'):
+        v1 = {i: float(c1.get_log_posterior(individual=i)(x)) for i in order1}
+        v2 = {i: float(c2.get_log_posterior(individual=i)(x)) for i in order2}
+        allp = c1.get_log_posterior()
+        v3 = {p.get_id(): float(p(x)) for p in (allp if isinstance(allp, list) else [allp])}
+    ctx.spec('C19.controller_request_order', all(same(v1[i], v2[i]) for i in ids) and
+             all(same(v3[i], v1[i]) for i in v3) and len(v3) >= 1, inp,
+             {'first_order': v1, 'second_order': v2, 'all_at_once': v3})
+
+
 def parallel(ctx, chi, rng, n_points=4):
     build0 = c08.make_ll(chi, rng)
     ll = build0()
@@ -520,7 +586,7 @@ def run(ctx):
         makers = [z.reduced_error, z.reduced_pop, z.loglik, lambda: z.loglik(True), z.hier,
                   lambda: z.hier(True), z.predictive, z.pop_predictive]
         made = ctx.guard(makers[i % len(makers)])
-        if i % 15 == 4:
+        if i % 15 == 4 and i < 15 * 40:     # (reference integrator: the slow cases are capped in the thorough tier)
             dosed = ctx.guard(z.pkpd_loglik)
             if dosed is not None:
                 ctx.guard(interleave_case, ctx, *dosed, rng)
@@ -536,6 +602,8 @@ def run(ctx):
             ctx.guard(siblings_and_later_mutation, ctx, chi, ctx.sub_rng(10 ** 6 + i))
             ctx.guard(reduced_user_model, ctx, chi, ctx.sub_rng(2 * 10 ** 6 + i))
             ctx.guard(controller_from_user_models, ctx, chi, ctx.sub_rng(3 * 10 ** 6 + i))
+        if i % 20 == 5 and i < 20 * 40:
+            ctx.guard(controller_request_order, ctx, chi, ctx.sub_rng(5 * 10 ** 6 + i))
     ctx.guard(parallel, ctx, chi, ctx.sub_rng(10 ** 7))
     if ctx.tier == 'thorough':
         for j in range(4):
